@@ -161,6 +161,13 @@ func WalkFrom(root []byte, get Getter) *Walk {
 }
 
 func (w *Walk) walk(hash []byte, path []byte, get Getter) (weight uint64) {
+	// records under foreign keys can form cycles: a path is at most 64 nibbles long
+	if len(path) > 200 {
+		if len(w.Problems) < 50 {
+			w.Problems = append(w.Problems, fmt.Sprintf("the walk reached a path of %d nibbles below %x: the stored records form a cycle", len(path), hash))
+		}
+		return 0
+	}
 	raw, ok := get(hash)
 	if !ok {
 		w.Missing = append(w.Missing, fmt.Sprintf("%x at path %x", hash, path))
